@@ -1,5 +1,5 @@
-// Harness for the properties that need the REAL arc process (L2): C05 (WAL crash
-// recovery), C04 (no payload crashes the server), C07 (backpressure / outages).
+// Harness for the cluster security area: C26 (nonce-protected cluster requests
+// cannot be replayed).
 package main
 
 import (
@@ -15,10 +15,8 @@ func main() {
 	flag.String("replay", "", "replay file")
 	flag.Parse()
 	switch *prop {
-	case "C05":
-		vlib.Main("C05", "fault_enumeration", checkC05)
-	case "C04":
-		vlib.Main("C04", "exploration", checkC04)
+	case "C26":
+		vlib.Main("C26", "exploration", checkC26)
 	default:
 		fmt.Println("unknown property", *prop)
 		os.Exit(2)
